@@ -13,7 +13,7 @@ LEVEL = 'exploration'
 TECHNIQUE = 'runtime monitoring: reference recogniser as oracle over exhaustively enumerated and mutated inputs of the real parser'
 RULE = ('exhaustive: every string of length <=5 (quick) / <=6 (thorough) over {@ [ ] : / . > - 0 1 A space}; '
         'random: grammar-derived expressions with every single-character insert/delete/replace mutation; '
-        'non-trivial = contains a structural character; distinct by the string itself')
+        'non-trivial = contains a structural character; distinct by the string itself; both parser configurations (absent slice = all occurrences / first occurrence)')
 ASSUMPTIONS = ['IDs are non-empty runs of digits/upper-case letters; IDs with other characters are UNSPECIFIED '
                '(not judged for acceptance, still judged for exception type and print/parse)',
                'integers are [+-]?digits; literals with "_" are UNSPECIFIED',
